@@ -108,9 +108,9 @@ def ev(e, env):
     if t == 'cmp':
         x, y = ev(e[2], env), ev(e[3], env)
         op = e[1]
-        if op == '==':
+        if op in ('==', '==='):
             return x == y
-        if op == '!=':
+        if op in ('!=', '!=='):
             return x != y
         if x is None or y is None or isinstance(x, str) != isinstance(y, str):
             raise EvalError('type', 'ordering %r and %r' % (x, y))
